@@ -13,7 +13,10 @@ Theorem C07_listing_order_free_partial :
 Proof. exact get_dist_listing_order_free. Qed.
 Print Assumptions C07_listing_order_free_partial.
 
-(* The guard is needed: with two candidates of one version (1 and 1.0) the listing order decides. *)
+(* ... and the restriction is needed FOR REPOSITORIES WHOSE CANDIDATES CARRY NO FILE NAME (the in-memory
+   repository of the correspondence, solution repositories): with two candidates of one version the
+   listing order decides.  Index and find-links candidates do carry file names and, since /repo 0189c4c,
+   equally ranked files are told apart by name (C20_rank_keys_order_free / C20_rank_order_free). *)
 Theorem C07_listing_order_tie_refuted :
   and (Permutation [tie_a; tie_b] [tie_b; tie_a])
       (get_dist [("p"%string, [tie_a; tie_b])] false (mkReq "p"%string [] [] None) None
